@@ -374,18 +374,28 @@ def expand_item(repo, relfile, selector, body, tmpl_name, tmpl_line, opts):
                     raise LostAnchor("%s: loop %d is not a for loop" % (selector, n))
                 add(s + mi.end(), s + mi.end(), "%s: " % itname, ("repo", relfile, line_of(src, s)), "T7i",
                     "ghost iterator of the for loop named `%s`" % itname)
-        elif d == "find-map":
+        elif d in ("find-map", "find-range"):
+            # T12b (find-range): a tail expression `R.into_iter().find_map(|i| B)` / `R.into_iter().find(|i| B)` (R a
+            #   Range<usize>) becomes the counting loop that find_map / find over a range is:
+            #   { let <i>_r = R; let mut <i>: usize = <i>_r.start;
+            #     while <i> < <i>_r.end <invariant from the template> { let i = <i>; let <i>_o = B; if <i>_o.is_some() { return <i>_o; } <i> += 1; }  None }
+            #   (find: `let i = &<i>; if B { return Some(<i>); }`)
             # T12: a tail expression `E.iter().find_map(|x| B)` (E an owned Vec) becomes the loop that find_map is:
             #   { let <i>_v = E; let mut <i>: usize = 0;
             #     while <i> < <i>_v.len() <invariant from the template> { let x = &<i>_v[<i>]; let <i>_o = B;
             #       if <i>_o.is_some() { return <i>_o; } <i> += 1; }  None }
             n, iv = arg
-            occ = [mm for mm in re.finditer(r"\.\s*iter\s*\(\s*\)\s*\.\s*find_map\s*\(\s*\|\s*([A-Za-z_][A-Za-z0-9_]*)\s*\|", m[fp.body_open:fp.body_close])]
+            is_range = d == "find-range"
+            if is_range:
+                occ = [mm for mm in re.finditer(r"\.\s*into_iter\s*\(\s*\)\s*\.\s*(find_map|find)\s*\(\s*\|\s*([A-Za-z_][A-Za-z0-9_]*)\s*\|", m[fp.body_open:fp.body_close])]
+            else:
+                occ = [mm for mm in re.finditer(r"\.\s*iter\s*\(\s*\)\s*\.\s*(find_map)\s*\(\s*\|\s*([A-Za-z_][A-Za-z0-9_]*)\s*\|", m[fp.body_open:fp.body_close])]
             if n < 1 or n > len(occ):
-                raise LostAnchor("%s: find-map %d not found (%d occurrences of `.iter().find_map(|x|`)" % (selector, n, len(occ)))
+                raise LostAnchor("%s: %s %d not found (%d occurrences of `.%s().find_map(|x|`)" % (selector, d, n, len(occ), "into_iter" if is_range else "iter"))
             mm = occ[n - 1]
+            adapter = mm.group(1)
             dot = fp.body_open + mm.start()
-            par = m.index("(", fp.body_open + mm.end() - len(mm.group(0)) + mm.group(0).index("find_map"))
+            par = m.index("(", fp.body_open + mm.start(1))
             close = rs.match_close(m, par)
             k = close + 1
             while k < fp.body_close and m[k].isspace():
@@ -410,9 +420,20 @@ def expand_item(repo, relfile, selector, body, tmpl_name, tmpl_line, opts):
             while s0 < dot and m[s0].isspace():
                 s0 += 1
             recv = _norm(src[s0:dot])
-            x_ = mm.group(1)
+            x_ = mm.group(2)
             inner = src[fp.body_open + mm.end():close].strip()
             here = ("repo", relfile, line_of(src, s0))
+            if is_range:
+                add(s0, s0, "{ let %s_r = %s; let mut %s: usize = %s_r.start;\n        while %s < %s_r.end\n" % (iv, recv, iv, iv, iv, iv), here, "T12b",
+                    "tail `%s.into_iter().%s(|%s| ..)` -> the counting loop that %s over a range is (first hit returned)" % (recv, adapter, x_, adapter))
+                add(s0, s0, text + "\n", origin, None)
+                if adapter == "find_map":
+                    add(s0, close + 1, "        { let %s = %s; let %s_o = %s; if %s_o.is_some() { return %s_o; } %s += 1; }\n        None }"
+                        % (x_, iv, iv, inner, iv, iv, iv), here, None)
+                else:
+                    add(s0, close + 1, "        { let %s = &%s; if %s { return Some(%s); } %s += 1; }\n        None }"
+                        % (x_, iv, inner, iv, iv), here, None)
+                continue
             add(s0, s0, "{ let %s_v = %s; let mut %s: usize = 0;\n        while %s < %s_v.len()\n" % (iv, recv, iv, iv, iv), here, "T12",
                 "tail `%s.iter().find_map(|%s| ..)` -> the index loop that find_map is (first Some returned)" % (recv, x_))
             add(s0, s0, text + "\n", origin, None)
@@ -434,6 +455,62 @@ def expand_item(repo, relfile, selector, body, tmpl_name, tmpl_line, opts):
                 pos0 = k + len(chead)
         elif d in ("keep-pub", "derived-ord"):
             pass
+        elif d == "positions-chain":
+            # T15: the statement `let NAME = E.iter().positions(|x| P).filter(|&y| F1)...collect_vec();` becomes the loop that
+            # the chain is (itertools::positions yields the indices of the elements that satisfy P, filter keeps those that
+            # satisfy F, collect_vec pushes them in order):
+            #   let mut NAME: Vec<usize> = Vec::new(); let mut <i>: usize = 0;
+            #   while <i> < E.len() <invariant from the template>
+            #   { let x = &E[<i>]; let <i>_c0 = P; if <i>_c0 { let y = <i>; let <i>_c1 = F1; if <i>_c1 { .. NAME.push(<i>); .. } } <i> += 1; }
+            # The closure bodies are the repo's text, unchanged.
+            if fp is None:
+                raise LostAnchor("%s: positions-chain on non-fn" % selector)
+            prefix, iv = arg
+            pos = _anchor(src, m, fp, prefix, "before", selector)
+            while pos < fp.body_close and m[pos].isspace():
+                pos += 1
+            end = rs.statement_end(m, pos, fp.body_close)
+            mh = re.match(r"let\s+([A-Za-z_][A-Za-z0-9_]*)\s*=\s*(.+?)\s*\.\s*iter\s*\(\s*\)\s*\.\s*positions\s*\(", m[pos:end], re.S)
+            if not mh:
+                raise LostAnchor("%s: positions-chain: statement `%s ..` is not `let x = E.iter().positions(..)`" % (selector, prefix))
+            name_, recv = mh.group(1), _norm(src[pos + mh.start(2):pos + mh.end(2)])
+            stages = []
+            k = pos + mh.end() - 1
+            while True:
+                close = rs.match_close(m, k)
+                mc = re.match(r"\s*\|\s*(&?)\s*([A-Za-z_][A-Za-z0-9_]*)\s*\|\s*(.*)$", src[k + 1:close], re.S)
+                if not mc or not re.match(r"\s*\|\s*&?\s*[A-Za-z_][A-Za-z0-9_]*\s*\|", m[k + 1:close]):
+                    raise LostAnchor("%s: positions-chain: stage %d is not a closure literal `|x| ..`" % (selector, len(stages) + 1))
+                stages.append((mc.group(1), mc.group(2), mc.group(3).strip()))
+                mn = re.match(r"\s*\.\s*([A-Za-z_][A-Za-z0-9_]*)\s*\(", m[close + 1:end])
+                if not mn:
+                    raise LostAnchor("%s: positions-chain: chain does not end in .collect_vec()" % selector)
+                if mn.group(1) == "filter":
+                    k = close + 1 + mn.end() - 1
+                    continue
+                if mn.group(1) != "collect_vec" or not re.match(r"\s*\)\s*;\s*$", m[close + 1 + mn.end():end]):
+                    raise LostAnchor("%s: positions-chain: unsupported adapter `.%s(` in the chain" % (selector, mn.group(1)))
+                break
+            if stages[0][0] == "&" or any(a != "&" for (a, _x, _b) in stages[1:]):
+                raise LostAnchor("%s: positions-chain: closure binders are not `|x|` then `|&y|`" % selector)
+            here = ("repo", relfile, line_of(src, pos))
+            add(pos, pos, "let mut %s: Vec<usize> = Vec::new(); let mut %s: usize = 0;\n        while %s < %s.len()\n" % (name_, iv, iv, recv),
+                here, "T15", "statement `%s ..` (lines %d-%d): positions/filter/collect_vec chain -> the index loop it is (closure bodies unchanged)"
+                % (prefix, line_of(src, pos), line_of(src, end - 1)))
+            # template text: the loop invariant, then (optionally, after a line `// on-push:`) ghost text placed right after the push;
+            # `<i>_prev` names the vector's view before the push
+            inv_text, push_text = text, ""
+            if "// on-push:" in text:
+                inv_text, push_text = text.split("// on-push:", 1)
+                push_text = push_text.split("\n", 1)[1] if "\n" in push_text else ""
+            add(pos, pos, inv_text.rstrip("\n") + "\n", origin, None)
+            parts = ["        { let %s = &%s[%s]; let %s_c0 = %s; if %s_c0 {" % (stages[0][1], recv, iv, iv, stages[0][2], iv)]
+            for si, (_a, x_, b_) in enumerate(stages[1:], 1):
+                parts.append(" let %s = %s; let %s_c%d = %s; if %s_c%d {" % (x_, iv, iv, si, b_, iv, si))
+            parts.append(" let ghost %s_prev = %s@; %s.push(%s);\n%s\n" % (iv, name_, name_, iv, push_text))
+            parts.append("}" * len(stages))
+            parts.append(" %s += 1; }" % iv)
+            add(pos, end, "".join(parts), here, None)
         elif d == "replace-stmt":
             # T14: one statement (named by the start of its text) is replaced by a call of a function with an ASSUMED
             # contract - for iterator chains outside the verifier's reach in the middle of an otherwise verified
@@ -447,6 +524,19 @@ def expand_item(repo, relfile, selector, body, tmpl_name, tmpl_line, opts):
                 "statement `%s ..` (lines %d-%d) replaced by `%s` (assumed contract; the statement is not verified)"
                 % (prefix, line_of(src, pos), line_of(src, end - 1), repl))
             out.trusted.append("T14: %s:%d-%d statement `%s ..` replaced by `%s`" % (relfile, line_of(src, pos), line_of(src, end - 1), prefix, repl))
+        elif d == "iter-collect":
+            # T16: every `P.iter().collect()` in the function (P a field path) becomes `vec_refs(&P)`, a helper of the template
+            # with the TRUSTED std specification "the references to P's elements, in order"
+            if fp is None:
+                raise LostAnchor("%s: iter-collect on non-fn" % selector)
+            cnt = 0
+            for mm in re.finditer(r"\b([A-Za-z_][A-Za-z0-9_]*(?:\s*\.\s*[A-Za-z_][A-Za-z0-9_]*)*)\s*\.\s*iter\s*\(\s*\)\s*\.\s*collect\s*\(\s*\)", m[fp.body_open:fp.body_close]):
+                s_, e_ = fp.body_open + mm.start(), fp.body_open + mm.end()
+                add(s_, e_, "%s(&%s)" % (arg, _norm(mm.group(1)).replace(" ", "")), ("repo", relfile, line_of(src, s_)), "T16",
+                    "`%s.iter().collect()` -> `%s(&%s)` (trusted std specification: references to the elements, in order)" % (_norm(mm.group(1)), arg, _norm(mm.group(1))))
+                cnt += 1
+            if cnt == 0:
+                raise LostAnchor("%s: iter-collect: no `.iter().collect()` in the function" % selector)
         elif d == "attr":
             # a verifier attribute in front of the item (specification only)
             add(it.head, it.head, arg + "\n", origin, None)
@@ -695,17 +785,26 @@ def parse_template(path):
                             continue
                         cur = (d2, (int(t.group(1)), t.group(2), t.group(3)), [], i + 1)
                         body.append(cur)
-                    elif d2 == "find-map":
+                    elif d2 in ("find-map", "find-range"):
                         t = re.match(r"(\d+)\s+index=(\w+)\s*$", a2)
                         if not t:
-                            raise LostAnchor("%s:%d: find-map directive needs `<n> index=<name>`" % (path, i + 1))
+                            raise LostAnchor("%s:%d: find-map/find-range directive needs `<n> index=<name>`" % (path, i + 1))
                         cur = (d2, (int(t.group(1)), t.group(2)), [], i + 1)
+                        body.append(cur)
+                    elif d2 == "positions-chain":
+                        t = re.match(r"`(.*)`\s+index=(\w+)\s*$", a2)
+                        if not t:
+                            raise LostAnchor("%s:%d: positions-chain directive needs `statement prefix` index=<name>" % (path, i + 1))
+                        cur = (d2, (t.group(1), t.group(2)), [], i + 1)
                         body.append(cur)
                     elif d2 == "closure":
                         t = re.match(r"`(.*)`\s*=>\s*`(.*)`\s*$", a2)
                         if not t:
                             raise LostAnchor("%s:%d: closure directive needs `head` => `typed head with spec`" % (path, i + 1))
                         body.append((d2, (t.group(1), t.group(2)), [], i + 1))
+                        cur = None
+                    elif d2 == "iter-collect":
+                        body.append((d2, a2.strip() or "vec_refs", [], i + 1))
                         cur = None
                     elif d2 == "attr":
                         body.append((d2, a2, [], i + 1))
@@ -747,7 +846,7 @@ def parse_template(path):
                         closed = True
                         break
                     i += 1
-            if not closed and any(b[0] in ("spec", "before", "after", "loop", "start", "find-map") for b in body):
+            if not closed and any(b[0] in ("spec", "before", "after", "loop", "start", "find-map", "find-range", "positions-chain") for b in body):
                 raise LostAnchor("%s:%d: item block with splices needs //@ end" % (path, start_line))
             nodes.append(("item", start_line, relfile, selector, body))
         else:
